@@ -453,6 +453,12 @@ def on_handler(p, r, exc, acc):
     m = p.witness()
     w = s.concretize(m)
     acc.vcs += 1
+    # concrete replay through the real codec machinery, several target charsets
+    real = realproc.call("encode_replace", w)
+    acc.replayed += 1
+    for cs, (okflag, txt) in real.items():
+        if not okflag:
+            acc.candidate(kind="handler-codec", input=dict(handler=cs, text=w), detail=txt)
     ok_shape = isinstance(res, tuple) and len(res) == 2 and isinstance(res[0], (str, SymStr)) and isinstance(res[1], int) and res[1] == len(s.items)
     if not ok_shape:
         acc.candidate(kind="handler-shape", input=dict(handler=r["charset"], text=w), detail="returned %r" % (conc(res, m),))
@@ -491,12 +497,6 @@ def on_handler(p, r, exc, acc):
         acc.candidate(kind="handler-roundtrip", input=dict(handler=r["charset"], text=s.concretize(mod)), detail="replacement %r" % rep.concretize(mod))
     elif st == "unknown":
         acc.vcs_unknown += 1
-    # concrete replay through the real codec machinery, several target charsets
-    real = realproc.call("encode_replace", w)
-    acc.replayed += 1
-    for cs, (okflag, txt) in real.items():
-        if not okflag:
-            acc.candidate(kind="handler-codec", input=dict(handler=cs, text=w), detail=txt)
     if len(acc.samples) < 6:
         acc.sample(dict(handler=r["charset"], input=w, replacement=rep.concretize(m)))
 
@@ -575,7 +575,7 @@ def run(check, tier):
         "urllib.parse.quote_plus on bytes is a modelled library call (15 lines, compared with the real function on all 256 byte values at start-up)",
         "the h filter runs MarkupSafe's own pure-Python _native._escape_inner symbolically (the C speed-up cannot take proxies); "
         "witnesses are replayed through the real filters.html_escape",
-        "codec tables other than ascii/latin-1 (cp1251, shift_jis, utf-8) are exercised only by the concrete replay of each path witness",
+        "codec tables other than ascii/latin-1 (cp1251, shift_jis, utf-8, and the not ASCII-compatible cp037 / iso2022_jp, where the replacement text itself has to go through the codec) are exercised only by the concrete replay of each path witness",
         "reference decoders for the five XML references, percent/plus + strict UTF-8, and &name;/&#x..; references are the oracles")
     check.not_claimed("strings longer than the bound", "decode.<enc> on bytes / arbitrary objects beyond concrete spot checks",
                       "FastEncodingBuffer with codecs other than those replayed")
